@@ -1,6 +1,18 @@
 #!/bin/sh
-# seedrun.sh <Cxx> <seed dir name e.g. C11b> : apply a seeded patch to a scratch copy and run the check against it
-d=/tmp/mut/seed.$$; rm -rf $d; mkdir -p /tmp/mut; cp -r /repo $d; rm -rf $d/.git
-(cd $d && patch -p1 -s < /tmp/seedout/$(echo $2 | cut -c1-3)/$(echo $2 | cut -c4)/patch.diff) || echo PATCH-FAILED
-PYVC_REPO=$d timeout 1500 /verif/check $1 quick | grep -E "^(VIOLATION|UNSUPPORTED|UNDECIDED|CHECKER|KNOWN|C[0-9][0-9] )" | cut -c1-250 | head -8
-echo "exit $?"; rm -rf $d
+# seedrun.sh <Cxx> <seed id e.g. C11b> : apply a seeded patch to a scratch copy of /repo and run the check against it.
+# The kept (re-based) seeds live in /verif/seeded/<id>/patch.diff; /tmp/seedout/<Cxx>/<a|b>/patch.diff is the fallback.
+# Exit status: the check's own exit code (1 = VIOLATION, i.e. the seed is caught); 4 = the patch does not apply
+# (nothing is checked in that case - a stale seed must never look like "seed not caught").
+d=/tmp/mut/seed.$$; out=/tmp/mut/seed.$$.out
+pf=/verif/seeded/$2/patch.diff
+[ -f "$pf" ] || pf=/tmp/seedout/$(echo $2 | cut -c1-3)/$(echo $2 | cut -c4)/patch.diff
+if [ ! -f "$pf" ]; then echo "PATCH-FAILED: no patch file for seed $2"; echo "exit 4"; exit 4; fi
+rm -rf $d; mkdir -p /tmp/mut; cp -r /repo $d; rm -rf $d/.git
+if ! (cd $d && patch -p1 -s -f -i "$pf" > /dev/null 2>&1); then
+    echo "PATCH-FAILED: $pf does not apply to the current /repo - nothing was checked"
+    echo "exit 4"; rm -rf $d; exit 4
+fi
+PYVC_REPO=$d timeout 1500 /verif/check $1 quick > $out 2>&1; rc=$?
+grep -E "^(VIOLATION|UNSUPPORTED|UNDECIDED|CHECKER|KNOWN|C[0-9][0-9] )" $out | cut -c1-250 | head -8
+echo "exit $rc"; rm -rf $d $out
+exit $rc
